@@ -201,7 +201,9 @@ static void cmd_open(char* t) {
     carquet_reader_options_t opt; carquet_reader_options_init(&opt);
     char* mode = field(t, 2);
     char* ver = field(t, 3);
-    if (ver) opt.verify_checksums = atoi(ver) != 0;
+    /* verify field: 0 / 1 explicit; 'd' = the documented defaults: NULL options where the mode allows it */
+    int defaults = ver && ver[0] == 'd';
+    if (ver && !defaults) opt.verify_checksums = atoi(ver) != 0;
     carquet_error_t err; memset(&err, 0x5a, sizeof(err)); err.code = CARQUET_OK;
     if (mode[0] == 'm') opt.use_mmap = true;
     if (mode[0] == 'b') {
@@ -211,9 +213,9 @@ static void cmd_open(char* t) {
         g_filebuf = (uint8_t*)malloc(n > 0 ? (size_t)n : 1);
         if (n > 0 && fread(g_filebuf, 1, (size_t)n, f) != (size_t)n) { fclose(f); fputs(" O=readerr", stdout); return; }
         fclose(f);
-        g_reader = carquet_reader_open_buffer(g_filebuf, (size_t)n, &opt, &err);
+        g_reader = carquet_reader_open_buffer(g_filebuf, (size_t)n, defaults ? NULL : &opt, &err);
     } else {
-        g_reader = carquet_reader_open(field(t, 1), &opt, &err);
+        g_reader = carquet_reader_open(field(t, 1), (defaults && mode[0] != 'm') ? NULL : &opt, &err);
     }
     if (g_reader) { fputs(" O=ok", stdout); return; }
     int nul = memchr(err.message, 0, sizeof(err.message)) != NULL;
@@ -265,6 +267,20 @@ static void cmd_schema_dump(void) {
         printf(",%d,%d,%d,%d,%d,%d", (int)carquet_schema_node_is_leaf(nd), (int)carquet_schema_node_physical_type(nd),
                (int)carquet_schema_node_repetition(nd), (int)carquet_schema_node_type_length(nd),
                (int)carquet_schema_node_max_def_level(nd), (int)carquet_schema_node_max_rep_level(nd));
+        /* logical type as exposed by the accessor: id/p1/p2 (parameters of the kinds that have them), x = none */
+        const carquet_logical_type_t* lt = carquet_schema_node_logical_type(nd);
+        if (!lt) fputs(",x", stdout);
+        else {
+            int p1 = 0, p2 = 0;
+            switch (lt->id) {
+                case CARQUET_LOGICAL_DECIMAL: p1 = lt->params.decimal.scale; p2 = lt->params.decimal.precision; break;
+                case CARQUET_LOGICAL_INTEGER: p1 = lt->params.integer.bit_width; p2 = lt->params.integer.is_signed; break;
+                case CARQUET_LOGICAL_TIME: p1 = (int)lt->params.time.unit; p2 = lt->params.time.is_adjusted_to_utc; break;
+                case CARQUET_LOGICAL_TIMESTAMP: p1 = (int)lt->params.timestamp.unit; p2 = lt->params.timestamp.is_adjusted_to_utc; break;
+                default: break;
+            }
+            printf(",%d/%d/%d", (int)lt->id, p1, p2);
+        }
     }
     fputc(';', stdout);
     /* column lookup by name: for each element that is a leaf, in order */
